@@ -1,19 +1,22 @@
 import PV.C18.Model
 import PV.C18.Spec
 import PV.C18.Lemmas
+import PV.C18.Float
 /-
   C18 — property theorems: the model of `format/src/format.rs` (`PV.C18.*`, Model.lean; the code
-  as repaired by e5c4721, a6de50b, 19885fd, 54c4118, b3fed62, b59d482) against the reference reading
-  of Python's format-spec mini-language (`PV.C18.Spec.*`, Spec.lean).
+  as repaired by e5c4721, a6de50b, 19885fd, 54c4118, b3fed62, b59d482 and, for floats and strings,
+  1c70d07, ca95121, dabde2e, 6610c77, 9bdbe36, 45bc6fb) against the reference reading of Python's
+  format-spec mini-language (`PV.C18.Spec.*`, Spec.lean).
 
   Text is a list of Unicode scalar values.  `Res.view` is the observable outcome of a Rust call:
   `none` = panic, `some none` = `Err(_)` (kinds are not observed), `some (some t)` = text.
   `Spec.pyFormat … = none` means CPython raises.
 
-  Sections 1–3 and 6 are full statements.  The end-to-end equalities of section 5 hold on the
-  explicit decidable domain `InDomain`, which excludes only the shapes the repaired code still gets
-  wrong (each with a `decide`d witness in section 7) and float formatting (tied by correspondence).
-  Helper lemmas are in `PV/C18/Lemmas.lean`.
+  Sections 1–3 are full statements.  The end-to-end equalities of section 5 hold on the explicit
+  decidable domain `InDomain`, which excludes only the shapes the repaired code still gets wrong
+  (each with a `decide`d witness in section 7) and absurd sizes; the float equality is in addition
+  relative to explicit facts about the digit generator `PV.Dec` (`FloatDigitFacts`).
+  Helper lemmas are in `PV/C18/Lemmas.lean` and `PV/C18/Float.lean`.
 -/
 namespace PV.C18
 open Spec
@@ -100,11 +103,17 @@ example : formatSignAndAlign (normOf ⟨none, none, none, false, false, true, so
 
 /-! ## 4. Domain of the end-to-end theorems -/
 
+/-- Doubles: no `z` flag (finding `z-flag-rejected`), width below 2^30, a precision the parser accepts,
+    and a formatted magnitude shorter than 2^30 characters (`TextShort`: the `i32` padding arithmetic).
+    The digit-generation facts are NOT part of the domain: they are the explicit hypothesis
+    `FloatDigitFacts` of `format_float_eq_partial`. -/
+def InDomainFloat (p : PySpec) (bits : Nat) : Bool :=
+  !p.z && decide (p.width.getD 0 < 2 ^ 30) && decide (p.precision.getD 0 < 2 ^ 63) && decide (TextShort p bits)
+
 /-- The inputs on which the code is proved to agree with Python.  A spec outside the grammar is in
     the domain (both reject).  `InDomainInt`: width < 2^30, |n| < 2^(2^28), a non-float presentation
-    type, not `c` on a surrogate.  `InDomainStr`: width/precision < 2^31, text shorter than 2^30, no
-    `=` alignment, no `0` flag that would pad.  `false` for doubles: float formatting is tied by
-    correspondence only. -/
+    type, not `c` on a surrogate.  `InDomainStr`: width < 2^31, precision < 2^63, text shorter than 2^30
+    (no shape excluded since 9bdbe36).  `InDomainFloat`: see above. -/
 def InDomain (spec : List Nat) (v : Value) : Bool :=
   match pyParseSpec spec with
   | none => true
@@ -113,7 +122,28 @@ def InDomain (spec : List Nat) (v : Value) : Bool :=
     | .int n => InDomainInt p n
     | .str s => InDomainStr p s
     | .bool b => spec.isEmpty || InDomainInt p (if b then 1 else 0)
-    | .float _ => false
+    | .float b => InDomainFloat p b
+
+/-- The digit-generation hypotheses of the float theorem (facts about `PV.Dec`, the contract of Rust's
+    and CPython's digit generators), per presentation type — see `FloatFacts` in `Float.lean`:
+    `g G n` and a precision without type: `GenDigits` (rounding to P significant digits and to P-1-X
+    decimals give the same digits); `%`: `x · 100` is a non-negative non-NaN double; no type and no
+    precision: `ReprDigits` (CPython's and Rust's shortest digits agree — they differ on exact ties —,
+    integers have their integer digits, non-integers have a fraction); `e E f F`: nothing.
+    Decidable; evaluated by the driver (`ffacts`) on every double the check sends. -/
+def FloatDigitFacts (spec : List Nat) (bits : Nat) : Prop :=
+  ∀ p, pyParseSpec spec = some p → PV.Dec.isFinite bits = true → FloatFacts p (absBits bits)
+
+instance (spec : List Nat) (bits : Nat) : Decidable (FloatDigitFacts spec bits) := by
+  unfold FloatDigitFacts
+  cases pyParseSpec spec with
+  | none => exact isTrue (by intro p h; cases h)
+  | some p =>
+    by_cases hf : PV.Dec.isFinite bits = true
+    · by_cases h : FloatFacts p (absBits bits)
+      · exact isTrue (by intro q hq _; cases hq; exact h)
+      · exact isFalse (by intro hall; exact h (hall p rfl hf))
+    · exact isTrue (by intro q _ hf'; exact absurd hf' hf)
 
 theorem domain_bounds {p : PySpec} {n : Int} (h : InDomainInt p n = true) :
     (∀ w, p.width = some w → w ≤ i32Max) ∧ (∀ m, p.precision = some m → m ≤ isizeMax) := by
@@ -241,6 +271,60 @@ theorem format_bool_eq_partial (spec : List Nat) (b : Bool) (h : InDomain spec (
                 | (simp only [formatValue, formatBool, hft, ht, typeOfChar, Option.bind_some]; exact key)
                 | (simp [formatValue, formatBool, hft, ht, typeOfChar, pyFormatInt, isFloatType, hz, Res.view])
 
+/-- **Floats.**  For every spec string and every double in the domain, relative to the digit facts:
+    parsing the spec and `format_float` give exactly Python's text and fail exactly when Python raises —
+    every presentation type (`e E f F g G n %` and none, with and without precision, every precision
+    the parser accepts: the `format!` clamp of 1c70d07 is exact), NaN and infinities, sign, `#`
+    (also `1.e+16`, dabde2e), the `.0` of the no-type presentation (6610c77), `inf%` (ca95121), fill and
+    alignment, the `0` flag, `,`/`_` grouping of the integer digits only with sign-aware zero padding
+    (a6de50b); other presentation types and a precision above `i32::MAX` are rejected by both.
+    Partial only in: the `z` flag, width ≥ 2^30, a magnitude of 2^30 or more characters. -/
+theorem format_float_eq_partial (spec : List Nat) (bits : Nat) (h : InDomain spec (.float bits) = true)
+    (hdig : FloatDigitFacts spec bits) :
+    (format spec (.float bits)).view = some (pyFormat spec (.float bits)) := by
+  unfold InDomain at h
+  unfold format pyFormat
+  cases hp : pyParseSpec spec with
+  | none =>
+    rcases parse_of_py_none spec hp with ⟨e, he⟩ | ⟨r, hr, hN⟩
+    · rw [he]; rfl
+    · rw [hr]; obtain ⟨e, he⟩ := formatFloat_N r bits hN; simp [formatValue, he, Res.view]
+  | some p =>
+    rw [hp] at h
+    simp only [InDomainFloat, Bool.and_eq_true, Bool.not_eq_true', decide_eq_true_eq] at h
+    obtain ⟨⟨⟨hz, hw⟩, hpb⟩, hts⟩ := h
+    have wf := pyParse_wf spec p hp
+    rw [parse_spec_complete spec p hp hz
+      (by intro w hw'; rw [hw'] at hw; simp at hw; unfold i32Max; omega)
+      (by intro m hm; rw [hm] at hpb; simp at hpb; unfold isizeMax; omega)]
+    exact formatFloat_eq p bits wf hz hw (hdig p hp) hts
+
+-- non-vacuity: the hypotheses hold for, and the theorem computes, e.g.
+-- format(123456.789, "*^+#012,.3f"), format(1234.5, ".3g"), format(0.1, ""), format(-1e16, "#"),
+-- format(0.00001234, "012.2e"), format(0.125, "08.1%"), format(1.0, ".5"), format(inf, "08,")
+example : InDomain [42, 94, 43, 35, 48, 49, 52, 44, 46, 51, 102] (.float 0x40FE240C9FBE76C9) = true ∧
+    FloatDigitFacts [42, 94, 43, 35, 48, 49, 52, 44, 46, 51, 102] 0x40FE240C9FBE76C9 := by decide +kernel
+example : (format [42, 94, 43, 35, 48, 49, 52, 44, 46, 51, 102] (.float 0x40FE240C9FBE76C9)).view =
+    some (some [42, 43, 49, 50, 51, 44, 52, 53, 54, 46, 55, 56, 57, 42]) := by decide +kernel   -- *+123,456.789*
+example : InDomain [46, 51, 103] (.float 0x40934A0000000000) = true ∧
+    FloatDigitFacts [46, 51, 103] 0x40934A0000000000 := by decide +kernel
+example : InDomain [] (.float 0x3FB999999999999A) = true ∧ FloatDigitFacts [] 0x3FB999999999999A := by
+  decide +kernel
+example : InDomain [35] (.float 0xC341C37937E08000) = true ∧ FloatDigitFacts [35] 0xC341C37937E08000 := by
+  decide +kernel
+example : (format [35] (.float 0xC341C37937E08000)).view = some (some [45, 49, 46, 101, 43, 49, 54]) := by
+  decide +kernel                                                                          -- -1.e+16
+example : InDomain [48, 49, 50, 46, 50, 101] (.float 0x3EE9E0E5C4F60B0E) = true ∧
+    FloatDigitFacts [48, 49, 50, 46, 50, 101] 0x3EE9E0E5C4F60B0E := by decide +kernel
+example : InDomain [48, 56, 46, 49, 37] (.float 0x3FC0000000000000) = true ∧
+    FloatDigitFacts [48, 56, 46, 49, 37] 0x3FC0000000000000 := by decide +kernel
+example : (format [48, 56, 46, 49, 37] (.float 0x3FC0000000000000)).view =
+    some (some [48, 48, 48, 49, 50, 46, 53, 37]) := by decide +kernel                     -- 00012.5%
+example : InDomain [46, 53] (.float 0x3FF0000000000000) = true ∧
+    FloatDigitFacts [46, 53] 0x3FF0000000000000 := by decide +kernel
+example : InDomain [48, 56, 44] (.float 0x7FF0000000000000) = true ∧
+    FloatDigitFacts [48, 56, 44] 0x7FF0000000000000 := by decide +kernel
+
 /-! ## 6. No panic -/
 
 /-- FULL for text: no spec string whatsoever and no text shorter than 2^30 characters makes
@@ -251,8 +335,10 @@ theorem no_panic_str (spec s : List Nat) (hs : s.length < 2 ^ 30) : format spec 
   | error e => simp
   | ok r => exact formatString_no_panic r s (parseSpec_width spec r hp) hs
 
-/-- On the domain no spec and no integer, text or boolean makes parsing + formatting panic. -/
-theorem no_panic_partial (spec : List Nat) (v : Value) (h : InDomain spec v = true) :
+/-- On the domain no spec and no integer, text, boolean or double (the latter relative to the digit
+    facts) makes parsing + formatting panic. -/
+theorem no_panic_partial (spec : List Nat) (v : Value) (h : InDomain spec v = true)
+    (hdig : ∀ b, v = .float b → FloatDigitFacts spec b) :
     format spec v ≠ .panic := by
   intro hpanic
   have hview : (format spec v).view = none := by rw [hpanic]; rfl
@@ -260,17 +346,7 @@ theorem no_panic_partial (spec : List Nat) (v : Value) (h : InDomain spec v = tr
   | int n => rw [format_int_eq_partial spec n h] at hview; cases hview
   | str s => rw [format_str_eq_partial spec s h] at hview; cases hview
   | bool b => rw [format_bool_eq_partial spec b h] at hview; cases hview
-  | float b =>
-    unfold InDomain at h
-    cases hp : pyParseSpec spec with
-    | some p => simp [hp] at h
-    | none =>
-      unfold format at hpanic
-      rcases parse_of_py_none spec hp with ⟨e, he⟩ | ⟨r, hr, hN⟩
-      · rw [he] at hpanic; cases hpanic
-      · rw [hr] at hpanic
-        obtain ⟨e, he⟩ := formatFloat_N r b hN
-        simp [formatValue, he] at hpanic
+  | float b => rw [format_float_eq_partial spec b h (hdig b rfl)] at hview; cases hview
 
 -- the hypotheses are satisfiable by non-trivial inputs:
 example : InDomain [48, 61, 49, 50, 44] (.int 1234567) = true := by decide            -- "0=12,"
@@ -288,6 +364,8 @@ example : InDomain [53] (.bool true) = true := by decide                        
 def format_eq_full : Prop :=
   ∀ (spec : List Nat) (v : Value), (format spec v).view = some (pyFormat spec v.toPy)
 
+/-- (no counterexample is known any more: the last one, a float precision above `u16::MAX`, was
+    repaired by 1c70d07; `no_panic_partial` proves it on the domain) -/
 def no_panic_full : Prop := ∀ (spec : List Nat) (v : Value), format spec v ≠ .panic
 
 /-- still false: `format(0xD800, "c")` is rejected (CPython returns the lone surrogate) -/
@@ -305,7 +383,7 @@ theorem dev_z_flag : (∃ e, parseSpec [122, 46, 49, 102] = .error e) ∧
     returns the lone surrogate, which a Rust `String` cannot hold -/
 theorem dev_c_surrogate : (format [99] (.int 55296)).view = some none ∧
     pyFormat [99] (PyValue.int 55296) = some [55296] := by decide
-/-- z-flag-rejected: `format(-0.0, "z.1f")` -/
+/-- z-flag-rejected: `format(-0.0, "z.1f")` (outside `InDomain`) -/
 theorem dev_z_flag_float : (format [122, 46, 49, 102] (.float 9223372036854775808)).view = some none ∧
     pyFormat [122, 46, 49, 102] (PyValue.float 9223372036854775808) = some [48, 46, 48] := by decide +kernel
 
@@ -313,7 +391,11 @@ theorem dev_z_flag_float : (format [122, 46, 49, 102] (.float 922337203685477580
 theorem dev_int_above_f64max : (format [101] (.int 179769313486231570814527423731704356798070567525844996598917476803157260780028538760589558632766878171540458953514382464234321326889464182768467546703537516986049910576551282076245490090389328944075868508455133942304583236903222948165808559332123348274797826204144723168738177180919299881250404026184124858369)).view = some none ∧
     pyFormat [101] (PyValue.int 179769313486231570814527423731704356798070567525844996598917476803157260780028538760589558632766878171540458953514382464234321326889464182768467546703537516986049910576551282076245490090389328944075868508455133942304583236903222948165808559332123348274797826204144723168738177180919299881250404026184124858369) = some [49, 46, 55, 57, 55, 54, 57, 51, 101, 43, 51, 48, 56] := by decide +kernel
 
-/-- float-repr-tie-rounds-up: `format(600377706905611.25, "")` -/
+/-- float-repr-tie-rounds-up: the double is outside the digit facts of `format_float_eq_partial`
+    (CPython's and Rust's shortest digits differ) … -/
+theorem dev_float_tie_not_in_facts : ¬ FloatDigitFacts [] 4828158222569046106 := by decide +kernel
+
+/-- … and `format(600377706905611.25, "")` differs in the last digit -/
 theorem dev_float_tie : (format [] (.float 4828158222569046106)).view = some (some [54, 48, 48, 51, 55, 55, 55, 48, 54, 57, 48, 53, 54, 49, 49, 46, 51]) ∧
     pyFormat [] (PyValue.float 4828158222569046106) = some [54, 48, 48, 51, 55, 55, 55, 48, 54, 57, 48, 53, 54, 49, 49, 46, 50] := by decide +kernel
 
